@@ -416,7 +416,7 @@ def parse_param_filter(el, cls):
         if subel.tag == "{urn:ietf:params:xml:ns:caldav}is-not-defined":
             param_filter.is_not_defined = True
         elif subel.tag == "{urn:ietf:params:xml:ns:caldav}text-match":
-            parse_text_match(subel, param_filter.filter_time_range)
+            parse_text_match(subel, param_filter.filter_text_match)
         else:
             raise AssertionError("unknown tag %r in param-filter", subel.tag)
     return param_filter
